@@ -8,6 +8,16 @@ Correspondence: the real `_records` / `_Flattener` on the tasks of real layers v
 (driver command `gr.flatten`).  Search: an in-process executor over the records returned by
 `__frisky_graph__` / `__frisky_records_chunks__` vs an execution of `__dask_graph__`.
 
+Two more streams live in harness/props_ext/c21_nested.py (shared with C22) and run first in every run:
+  * container cases — dask objects (delayed, chained delayed, 0-d / 1-d dask arrays) nested up to three deep in list /
+    tuple / dict arguments and keyword arguments of map_blocks / blockwise / map_overlap / apply_gufunc / from_delayed /
+    store targets / random distributions with dask-array parameters; every container skeleton x leaf kind is enumerated,
+    seeded random ones follow; the block function folds its arguments position by position and raises on anything
+    unresolved; records must be FLAT (no graph node left in a record) and execute to the dask graph's block values;
+  * history cases — ONE collection object: early reads (output keys, dask keys, records, graph, …), in-place updates
+    (setitem with masks / slices / integer lists, ufunc out=, cumsum / reduction out=, compute_chunk_sizes), forks,
+    dependents, optimize flips: the advertised output keys are defined by the records and hold the post-update values.
+
 The native Rust extension cannot be built in this sandbox: `_frisky_layer()` always falls
 back to the generic `GraphRecordsLayer` adapter (that is the path checked); the
 `frisky.Future` branches of `_records` are untestable offline.
@@ -28,8 +38,8 @@ from harness import graphs, programs
 def exec_records(records, rng=None):
     """Execute flat (key, func, args, kwargs, deps) records the way Frisky consumes them:
     dependencies are matched by key STRING, embedded TaskRefs are resolved recursively in
-    lists / tuples / dict values, a record only sees the dependencies it declares.
-    Returns (values, problems)."""
+    lists / tuples / dict values, a record only sees the dependencies it declares; records are flat (a graph node left
+    inside a record's arguments is a problem of its own).  Returns (values, problems, duplicate keys)."""
     from dask._task_spec import TaskRef
 
     problems = []
@@ -42,6 +52,15 @@ def exec_records(records, rng=None):
         if r[0] in by_key:
             dup += 1
         by_key.setdefault(r[0], []).append(r)
+    from harness.props_ext import c21_nested as CN
+
+    for rs in by_key.values():
+        for r in rs:
+            left = CN.leftover_nodes(r[2], r[1], top=True) + CN.leftover_nodes(r[3])
+            if left:
+                # records are flat: TaskRef dependencies, plain containers and literals, never a graph node
+                problems.append(("graph-node-left-in-record", f"record {r[0]} carries {sorted(set(left))} in its arguments"))
+                return {}, problems, dup
     dangling = sorted({d for rs in by_key.values() for r in rs for d in r[4] if d not in by_key})
     if dangling:
         problems.append(("dangling-dependency", f"{len(dangling)} e.g. {dangling[0]}"))
@@ -188,18 +207,21 @@ def verify_alone(x, ref, label):
 
 
 def run_case(ctx, case, count=True):
-    """case: {prog, roots, optimize, shared:bool, oseed, history}.  history (groups only):
+    """case: {prog, roots, optimize, shared:bool, oseed, history} or a container case of harness.props_ext.c21_nested
+    ({kind: "container", api, args, kwargs, …, roots, optimize, history}: the collections come from its builder).  history (groups only):
     "group" | "group-then-alone" (every member walked alone AFTER the shared walk, same collection
     objects) | "alone-then-group" (members walked alone BEFORE the shared walk)."""
     import dask
     from dask.core import flatten
     from dask_array._frisky.graph_records import GraphRecordsLayer
+    from harness.props_ext import c21_nested as CN
 
-    prog = case["prog"]
+    prog = case.get("prog") or []
+    container = case.get("kind") == "container"
     fails = []
     with dask.config.set({"array.optimize-graph": case["optimize"]}):
         try:
-            env = programs.run_da_ext(prog)
+            env = CN.build_container(case) if container else programs.run_da_ext(prog)
         except NotImplementedError:
             ctx.notes["refused_at_construction"] = ctx.notes.get("refused_at_construction", 0) + 1
             return None
@@ -207,7 +229,7 @@ def run_case(ctx, case, count=True):
             # raising while the program is BUILT is not a statement about graphs / schedules / records
             # (e.g. broadcasting a length-1 axis chunked (0, 1)); counted with an example, reported
             ctx.notes["construction_raised"] = ctx.notes.get("construction_raised", 0) + 1
-            ctx.notes.setdefault("construction_raised_example", f"{type(e).__name__}: {str(e)[:100]} :: {[st['op'] for st in prog]}")
+            ctx.notes.setdefault("construction_raised_example", f"{type(e).__name__}: {str(e)[:100]} :: {[st['op'] for st in prog] or case.get('api')}")
             return None
         xs = [env[r] for r in case["roots"]]
         label = "+".join(case["roots"])
@@ -252,11 +274,34 @@ def run_case(ctx, case, count=True):
                 return [(k, msg[:300])]
             # does the dask graph path raise the same way?  then it is not a records-path problem
             try:
+                dsk = {}
                 for x in xs:
-                    x.__dask_graph__()
+                    dsk.update(dict(x.__dask_graph__()))
+                if container:
+                    # … or builds a graph whose execution raises the same exception class (the records path meets it
+                    # earlier, while it looks at the collection's meta): the computation is broken on both paths
+                    try:
+                        graphs.execute(graphs.to_tasks(dsk), rng=None, order="fifo")
+                    except type(e):
+                        raise
+                    except Exception:
+                        pass
             except Exception as e2:
                 ctx.notes["both_paths_raise"] = ctx.notes.get("both_paths_raise", 0) + 1
+                if container:
+                    ctx.notes.setdefault("both_paths_raise_example(container)", f"{msg[:120]} :: {case['api']} {case.get('rand') or ''} pre={case.get('pre')} post={case.get('post')}")
                 return None
+            # narrow class: the collection's own metadata raises (the records path is the first to look at it, `compute()` never
+            # does): e.g. a random distribution without explicit-parameter expression class given dask arrays as parameters
+            for x in xs:
+                try:
+                    x._meta
+                except type(e):
+                    what = "random-" + case["rand"]["dist"] if container and case.get("rand") else type(x.expr).__name__
+                    return [("records-path-raises:collection-meta-raises:" + what,
+                             f"{label}: __frisky_graph__ raised {msg[:200]} (so does the collection's _meta) while __dask_graph__ builds and executes")]
+                except Exception:
+                    pass
             return [("records-path-raises:" + type(e).__name__, f"{label}: __frisky_graph__ raised {msg[:300]} while __dask_graph__ succeeds")]
         # ---- the reference: the dask graph
         try:
@@ -268,6 +313,26 @@ def run_case(ctx, case, count=True):
         except Exception as e:
             ctx.notes["dask_graph_raises"] = ctx.notes.get("dask_graph_raises", 0) + 1
             return None
+        if container:
+            # third witness: NumPy.  A dask graph that itself differs from NumPy is outside this property (both paths
+            # are built from the same layers): noted with an example, the comparison records ~ dask graph is skipped
+            want_np = CN.expected_container(case)
+            for r, x in zip(case["roots"], xs):
+                if r not in want_np:
+                    continue
+                try:
+                    got = CN._blocks_in_order(x, ref, list(flatten(x.__dask_keys__())))
+                    ok = CN._same(got, np.asarray(want_np[r]))
+                except Exception:
+                    ok = False
+                if not ok:
+                    key = "outside_C21:dask graph differs from NumPy (nested dask object reaches the function unresolved)"
+                    ctx.notes[key] = ctx.notes.get(key, 0) + 1
+                    ex = ctx.notes.setdefault("outside_C21:examples", [])
+                    tag = f"{case['api']} pre={case.get('pre')} post={case.get('post')} optimize={case['optimize']}"
+                    if len(ex) < 6 and not any(e.startswith(tag) for e in ex):
+                        ex.append(f"{tag} args={case.get('args')} kwargs={case.get('kwargs')}")
+                    return None
         want_keys = [str(k) for x in xs for k in flatten(x.__dask_keys__())]
         if outkeys != list(dict.fromkeys(want_keys)) and len(xs) == 1:
             fails.append(("output-keys-differ", f"{label}: __frisky_output_keys__ {outkeys[:2]} vs str(__dask_keys__) {want_keys[:2]}"))
@@ -353,6 +418,8 @@ def run_case(ctx, case, count=True):
         if count:
             kinds = tuple(sorted({type(n).__name__ for n in nodes.values()}))
             ctx.count(("recs", case["optimize"], len(xs) > 1, kinds))
+            if container:
+                ctx.count(CN.container_class(case))
             ctx.notes["records_executed"] = ctx.notes.get("records_executed", 0) + len(recs)
             ctx.notes["sub_records"] = ctx.notes.get("sub_records", 0) + sum("-sub" in r[0] for r in recs)
             ctx.notes["duplicate_record_keys(embedded/literal)"] = ctx.notes.get("duplicate_record_keys(embedded/literal)", 0) + dup
@@ -394,7 +461,38 @@ def passes_with_slow_records(ctx, case):
         fb.FusedBlockwiseLayer._fast_records = orig
 
 
+def report_ext(ctx, case, fails):
+    """container / history cases of harness.props_ext.c21_nested: shrink with their own shrinkers, one failure per signature"""
+    from harness.props_ext import c21_nested as CN
+
+    by_sig = {}
+    for sig, detail in fails:
+        by_sig.setdefault(sig, detail)
+    runner = (lambda c: run_case(ctx, c, count=False)) if case["kind"] == "container" else (lambda c: CN.run_history(ctx, c, exec_records, count=False))
+    shrinker = CN.shrink_container if case["kind"] == "container" else CN.shrink_history
+    done = set()
+    for sig, detail in by_sig.items():
+        small = case
+        try:
+            def still(c, sig=sig):
+                f = runner(c)
+                return bool(f) and any(s == sig for s, _ in f)
+
+            small = shrinker(case, still)
+            f2 = runner(small) or []
+            detail = next((d for s, d in f2 if s == sig), detail)
+        except Exception:
+            small = case
+        key = (sig, repr(small))
+        if key in done:
+            continue
+        done.add(key)
+        ctx.fail(sig, {k: v for k, v in small.items() if k != "grid"}, detail)
+
+
 def report(ctx, case, fails):
+    if case.get("kind") in ("container", "history"):
+        return report_ext(ctx, case, fails)
     by_sig = {}
     for sig, detail in fails:
         by_sig.setdefault(sig, detail)
@@ -519,7 +617,21 @@ class Enc:
         if isinstance(a, tuple):
             return "t[" + ";".join(self.node(x) for x in a) + "]"
         if isinstance(a, dict):
-            raise ValueError
+            # a plain dict of literals is data for the model (one literal); with references inside it has no model form
+            from harness.props_ext.c21_nested import leftover_nodes
+
+            def has_ref(o):
+                if isinstance(o, TaskRef):
+                    return True
+                if isinstance(o, (list, tuple)):
+                    return any(has_ref(x) for x in o)
+                if isinstance(o, dict):
+                    return any(has_ref(x) for x in o.values())
+                return False
+
+            if leftover_nodes(a) or has_ref(a):
+                raise ValueError
+            return "V%d" % self.lid(a)
         return "V%d" % self.lid(a)
 
     # canonical rendering of the REAL records with the same tables
@@ -639,6 +751,8 @@ def synthetic_pairs(ctx, n):
 
 
 def run(ctx, replay=None):
+    from harness.props_ext import c21_nested as CN
+
     rng = ctx.rng
     t_run = time.time()  # budgets are relative to the start of the search, not to the Lean build/audit
     ctx.rule = (
@@ -648,7 +762,15 @@ def run(ctx, replay=None):
         "histories group / group-then-each-member-alone / each-member-alone-then-group on the SAME collection objects; records executed by an in-process executor (random "
         "topological order, dependency matching by key string, only declared deps visible) and compared block by block with an "
         "execution of __dask_graph__; correspondence: every task of every real layer expressible in the mini-AST + random "
-        "synthetic nested nodes, real _records/_Flattener vs the Lean model; distinct = (optimize, grouped?, layer classes) / model output prefix"
+        "synthetic nested nodes, real _records/_Flattener vs the Lean model; distinct = (optimize, grouped?, layer classes) / model output prefix. "
+        "PLUS (harness.props_ext.c21_nested) container cases: dask objects (delayed, chained delayed, 0-d / 1-d dask arrays) nested up to 3 deep in "
+        "list/tuple/dict arguments and keyword arguments of map_blocks / Array.map_blocks / blockwise (1-2 arrays) / map_overlap / apply_gufunc / "
+        "from_delayed / store targets — every container skeleton x leaf kind enumerated in every run + seeded random ones, alone and grouped with "
+        "the nested arrays, a position-sensitive fold as block function, records ~ dask graph ~ NumPy, records must be flat (no graph node left); "
+        "history cases: early read (output keys / dask keys / records / graph / chunks / name / compute / lowering) x in-place update (masked, "
+        "slice, integer-list setitem with scalar / ndarray / dask values, ufunc out= via np and da, out= from another array, where=, cumsum / "
+        "reduction out=, compute_chunk_sizes) enumerated + random sequences with copy.copy forks, dependents built before the update, "
+        "optimize-graph flips: advertised output keys defined by the records and computing the post-update NumPy values (== an unread twin)"
     )
     ctx.assumptions = [
         "the native Rust extension is absent: _frisky_layer() always falls back to GraphRecordsLayer, the only path checked; "
@@ -664,15 +786,25 @@ def run(ctx, replay=None):
         if "request" in case:
             ctx.correspond("replay", [(case["request"], case["impl"])])
             return
+        if case.get("kind") == "history":
+            for sig, detail in CN.run_history(ctx, case, exec_records) or []:
+                ctx.fail(sig, case, detail)
+            return
         for sig, detail in run_case(ctx, case) or []:
             ctx.fail(sig, case, detail)
         return
 
     import dask
 
-    n = ctx.scale(160, 3000)
-    budget = ctx.scale(30, 500)
     corr_pairs = []
+    import warnings
+
+    with warnings.catch_warnings():
+        warnings.simplefilter("ignore")  # "Computing mixed collections …" for every Delayed next to an array expression
+        nested_streams(ctx, corr_pairs)
+    t_run = time.time()
+    n = ctx.scale(160, 3000)
+    budget = ctx.scale(26, 440)
     ctx.walk_pairs = []
     corr_skipped = 0
     corr_limit = ctx.scale(2500, 30000)
@@ -716,6 +848,58 @@ def run(ctx, replay=None):
         targeted(ctx)
 
 
+def nested_streams(ctx, corr_pairs):
+    """(a) dask objects nested in container arguments, (b) in-place update histories (harness.props_ext.c21_nested):
+    the enumerated grids in every run + seeded random cases inside a time budget"""
+    import dask
+    from harness.props_ext import c21_nested as CN
+
+    rng = ctx.rng
+    reported = {}
+
+    def one(case, runner):
+        fails = runner(case)
+        if fails:
+            sigs = tuple(sorted({s for s, _ in fails}))
+            reported[sigs] = reported.get(sigs, 0) + 1
+            if reported[sigs] > 3:
+                ctx.notes["further_failing_cases_of_reported_classes"] = ctx.notes.get("further_failing_cases_of_reported_classes", 0) + 1
+                return  # the same class was reported with three shrunk inputs already
+            report(ctx, case, fails)
+
+    t0 = time.time()
+    cases = CN.container_grid(rng, full=ctx.tier != "quick")
+    budget = ctx.scale(9, 60)
+    nrand = 0
+    for i, case in enumerate(cases):
+        if i in (0, 40):
+            ctx.sample({k: v for k, v in case.items() if k in ("kind", "api", "kwargs", "args", "pre", "post", "optimize", "roots")})
+        one(case, lambda c: run_case(ctx, c))
+        if i % 3 == 0 and len(corr_pairs) < 900:
+            try:
+                with dask.config.set({"array.optimize-graph": case["optimize"]}):
+                    p, _ = flatten_pairs(ctx, [CN.build_container(case)["y"]], 30)
+                corr_pairs += p
+            except Exception:
+                pass
+    while time.time() - t0 < budget and nrand < ctx.scale(400, 20000):
+        nrand += 1
+        one(CN.random_container(rng), lambda c: run_case(ctx, c))
+    ctx.notes["container_cases"] = f"{len(cases)} enumerated + {nrand} random in {time.time() - t0:.1f}s"
+    t0 = time.time()
+    budget = ctx.scale(7, 45)
+    cases = CN.history_grid(rng)
+    nrand = 0
+    for i, case in enumerate(cases):
+        if i in (1, 60):
+            ctx.sample({k: v for k, v in case.items() if k in ("kind", "base", "steps", "optimize")})
+        one(case, lambda c: CN.run_history(ctx, c, exec_records))
+    while time.time() - t0 < budget and nrand < ctx.scale(400, 20000):
+        nrand += 1
+        one(CN.random_history(rng), lambda c: CN.run_history(ctx, c, exec_records))
+    ctx.notes["history_cases"] = f"{len(cases)} enumerated + {nrand} random in {time.time() - t0:.1f}s"
+
+
 def known_probe(ctx):
     """FusedBlockwise's pure-Python fast records validate block-independence on sampled blocks only
     (first / middle / last per axis): a creation op whose interior block has another size."""
@@ -748,8 +932,26 @@ def known_probe(ctx):
 def targeted(ctx):
     """A model/implementation disagreement on `_records`: look for an observable failure of the
     records path on the real code (programs whose layers contain nested tasks)."""
+    from harness.props_ext import c21_nested as CN
+
     rng = ctx.rng
     tried = 0
+    # tasks with nested containers of references first (lists / tuples / dicts of delayed objects and dask arrays in
+    # arguments and keyword arguments): the shapes the real layers seldom produce and the synthetic nodes do
+    if not ctx.failures:
+        import warnings
+
+        with warnings.catch_warnings():
+            warnings.simplefilter("ignore")
+            for case in CN.container_grid(rng) + [CN.random_container(rng) for _ in range(ctx.scale(100, 1500))]:
+                tried += 1
+                fails = run_case(ctx, case, count=False)
+                if fails:
+                    report(ctx, case, fails)
+                    ctx.notes["targeted_search"] = f"{tried} container-argument programs executed through the records path"
+                    return
+    else:
+        ctx.notes["targeted_search_note"] = "the search already reported concrete failing inputs on the records path"
     for _ in range(ctx.scale(150, 1500)):
         prog, _ = programs.gen_clean_program2(rng, rng.randint(2, 5), ops=("reduce", "concatenate", "rechunk", "getitem", "take", "stack", "cumsum", "setitem", "binary", "blockwise_concat", "apply_along_axis", "take_dask_index"))
         names = [st["out"] for st in prog]
